@@ -1,5 +1,5 @@
 import PyramidModel.Lemmas.CsrfProofs
-import PyramidModel.Gen.C12
+import PyramidModel.Lemmas.CsrfGen
 /-!
 # C12 — CSRF-protected views run only with the stored token and a trusted origin
 
@@ -310,48 +310,42 @@ theorem legacy_empty_token_excluded_point :
   simp only [checkToken_eq]
   decide
 
-/-! ## the generated table (extract/c12.py): the constants of the model are the constants of the source -/
+/-! ## the generated tables (extract/c12.py RUNS the code under test over finite probe domains; `Lemmas/CsrfGen.lean`
+evaluates the model on each row): on every probed input the model gives the verdict the implementation gave.  The rows
+cover the built-in defaults (names, safe-method set, check_origin / allow_no_origin, no default requirement), every option
+of a registered utility, the `enabled` truth table, header / body / query lookups, the order of the two checks, signature
+defaults, the codec of the comparison, the list copy, the caught ValueError, the own-host/port rule. -/
 
 open Pyr.Gen.C12 in
-/-- built-in defaults of `csrf_view` when no `IDefaultCSRFOptions` utility is registered -/
-theorem gen_builtin_defaults :
-    builtin = [("allow_no_origin", "False"), ("callback", "None"), ("check_origin", "True"), ("default_val", "False"),
-               ("header", "str:X-CSRF-Token"), ("safe_methods", "GET,HEAD,OPTIONS,TRACE"), ("token", "str:csrf_token")] ∧
-    builtinSafeMethods.map String.toList = builtinDefaults.safeMethods ∧
-    builtinDefaults.token = some "csrf_token".toList ∧ builtinDefaults.header = some "X-CSRF-Token".toList ∧
-    builtinDefaults.requireCsrf = false ∧ builtinDefaults.checkOrigin = true ∧ builtinDefaults.allowNoOrigin = false ∧
-    builtinDefaults.callback.isNone = true ∧
-    attrs = [("allow_no_origin", "allow_no_origin"), ("callback", "callback"), ("check_origin", "check_origin"),
-             ("default_val", "require_csrf"), ("header", "header"), ("safe_methods", "safe_methods"), ("token", "token")] := by
-  decide
+/-- the wrapper derived by `csrf_view` — 221 probed calls -/
+theorem gen_view_rows : viewRows.all viewRowOk = true := by decide +kernel
 
 open Pyr.Gen.C12 in
-/-- the decision expressions and the ORDER of the calls in the wrapper (origin check, then token check, then the view) -/
-theorem gen_wrapper_shape :
-    enabledExprs = ["explicit_val is True or (explicit_val is not False and default_val and (not info.exception_only))",
-                    "enabled and (token or header)"] ∧
-    guard = "request.method not in safe_methods and (callback is None or callback(request))" ∧
-    order = ["if check_origin: check_csrf_origin(request, raises=True, allow_no_origin=allow_no_origin)",
-             "check_csrf_token(request, token, header, raises=True)", "return view(context, request)"] ∧
-    originBeforeToken = true := by
-  decide
+/-- `check_csrf_origin` — 192 probed calls, incl. omitted arguments, the caller's list and the settings list afterwards -/
+theorem gen_origin_rows : originRows.all originRowOk = true := by decide +kernel
 
 open Pyr.Gen.C12 in
-/-- signatures, lookups, the codec of the comparison, the list copy and the caught ValueError -/
-theorem gen_function_shapes :
-    tokenSig = [("header", "str:X-CSRF-Token"), ("raises", "True"), ("token", "str:csrf_token")] ∧
-    tokenLookups = ["supplied_token = ''", "if header is not None: supplied_token = request.headers.get(header, '')",
-                    "if supplied_token == '' and token is not None: supplied_token = request.POST.get(token, '')",
-                    "if not policy.check_csrf_token(request, text_(supplied_token)): ..."] ∧
-    originSig = [("allow_no_origin", "False"), ("raises", "True"), ("trusted_origins", "None")] ∧
-    copiesTrusted = true ∧ Pyr.Gen.C12.catchesValueError = Pyr.Csrf.catchesValueError ∧ httpsGuard = true ∧ lastOriginValue = true ∧
-    appends = ["trusted_origins.append('{0.domain}:{0.host_port}'.format(request))", "trusted_origins.append(request.domain)"] ∧
-    codecs = [["LegacySessionCSRFStoragePolicy", "utf-8", "utf-8", "not strings_differ"],
-              ["SessionCSRFStoragePolicy", "utf-8", "utf-8", "not strings_differ"],
-              ["CookieCSRFStoragePolicy", "utf-8", "utf-8", "not strings_differ"]] ∧
-    tokenCodec = .utf8 ∧
-    optionsSig = [("allow_no_origin", "False"), ("callback", "None"), ("check_origin", "True"), ("header", "str:X-CSRF-Token"),
-                  ("require_csrf", "True"), ("safe_methods", "GET,HEAD,OPTIONS,TRACE"), ("token", "str:csrf_token")] := by
+/-- `check_csrf_token` (198) and the storage policies' comparison (129: prefix, case, non-latin-1, mojibake) -/
+theorem gen_token_rows : tokenRows.all tokenRowOk = true ∧ policyRows.all policyRowOk = true := by
+  constructor <;> decide +kernel
+
+open Pyr.Gen.C12 in
+/-- `is_same_domain` over 8 hosts × 9 patterns, `strings_differ` over 5 × 5 byte strings -/
+theorem gen_util_rows : domainRows.all domainRowOk = true ∧ differRows.all differRowOk = true := by
+  constructor <;> decide +kernel
+
+open Pyr.Gen.C12 in
+/-- `set_default_csrf_options()` without arguments registers the documented defaults, and each argument lands in the
+attribute of the same name (`require_csrf`, `token`, `header`, `safe_methods`, `check_origin`, `allow_no_origin`, `callback`) -/
+theorem gen_options :
+    optionsDefaults = some ⟨true, some "csrf_token", some "X-CSRF-Token", ["GET", "HEAD", "OPTIONS", "TRACE"], true, false, "none"⟩ ∧
+    optionsStore = [("allow_no_origin", "allow_no_origin"), ("callback", "callback"), ("check_origin", "check_origin"),
+                    ("header", "header"), ("require_csrf", "require_csrf"), ("safe_methods", "safe_methods"), ("token", "token")] ∧
+    (match optionsDefaults.bind defaultsOfRow with
+     | some d => d.token == builtinDefaults.token && d.header == builtinDefaults.header &&
+         d.safeMethods == builtinDefaults.safeMethods && d.checkOrigin == builtinDefaults.checkOrigin &&
+         d.allowNoOrigin == builtinDefaults.allowNoOrigin && d.requireCsrf
+     | none => false) = true := by
   decide
 
 /-! ## non-vacuity -/
